@@ -1,6 +1,11 @@
 package eni
 
-import "time"
+import (
+	"time"
+
+	"golang.org/x/time/rate"
+	"k8s.io/apimachinery/pkg/util/cache"
+)
 
 // VerifSleepDivisor scales the hard-coded batching delay in factoryAllocWorker when the
 // verification driver has rewritten `time.Sleep(300 * time.Millisecond)` into
@@ -13,3 +18,33 @@ func verifScale(d time.Duration) time.Duration {
 	}
 	return d / time.Duration(VerifSleepDivisor)
 }
+
+// VerifFastPool removes the pool's cloud-call rate limit and scales the batching delay
+// (harnesses outside this package cannot reach the unexported knobs).
+func VerifFastPool(divisor int64) {
+	rateLimit = rate.Inf
+	VerifSleepDivisor = divisor
+	invalidIPCache = cache.NewLRUExpireCache(100)
+}
+
+// VerifLocalInfo is a white-box snapshot of one Local for harnesses outside the package.
+type VerifLocalInfo struct {
+	ENIID    string
+	Status   string
+	Pending  int
+	Deleting int
+}
+
+func VerifInspect(l *Local) VerifLocalInfo {
+	l.cond.L.Lock()
+	defer l.cond.L.Unlock()
+	i := VerifLocalInfo{Status: l.status.String(), Pending: l.allocatingV4.Len() + l.allocatingV6.Len(),
+		Deleting: len(l.ipv4.Deleting()) + len(l.ipv6.Deleting())}
+	if l.eni != nil {
+		i.ENIID = l.eni.ID
+	}
+	return i
+}
+
+// VerifWake broadcasts on the Local's condition (used while shutting a case down).
+func VerifWake(l *Local) { l.cond.Broadcast() }
